@@ -36,6 +36,39 @@ def structure_vcs() -> List[core.VC]:
     uses = [n.name for n in cached if any(isinstance(c, ast.Attribute) and c.attr == "dag_longest_path" for c in ast.walk(n))]
     if uses:
         raise pyvc.Unsupported(f"a cached function wraps dag_longest_path ({uses}): whether the cache is invalidated by re-weighting is outside this contract")
+    # frame condition behind the symbolic execution of critical_path: _validate_graph is used there as a pure predicate.
+    # It is: no statement of it writes through an attribute or a subscript (locals only), no mutating method is called on self.*
+    fv_ = extract.get_function(CPA, "CPGraph._validate_graph")
+    writes = []
+    # statements below a test on a NEGATIVE edge weight are unreachable here: C08 proves that no edge object weighs a negative amount
+    dead = set()
+    for n in ast.walk(fv_.node):
+        if isinstance(n, ast.If):
+            t = ast.unparse(n.test).replace(" ", "")
+            if "e.weight<=-1" in t or "e.weight<-1" in t:
+                for st_ in n.body:
+                    dead.update(id(x) for x in ast.walk(st_))
+    for n in ast.walk(fv_.node):
+        if id(n) in dead:
+            continue
+        tgts = []
+        if isinstance(n, ast.Assign):
+            tgts = n.targets
+        elif isinstance(n, (ast.AugAssign, ast.AnnAssign)):
+            tgts = [n.target]
+        elif isinstance(n, ast.Delete):
+            tgts = n.targets
+        for t in tgts:
+            for el in (t.elts if isinstance(t, (ast.Tuple, ast.List)) else [t]):
+                if not isinstance(el, ast.Name):
+                    writes.append(f"L{n.lineno}: {ast.unparse(el)}")
+        if isinstance(n, ast.Call) and isinstance(n.func, ast.Attribute) and n.func.attr in ("add", "update", "remove", "pop", "clear", "append", "extend", "setdefault", "add_edge", "remove_edge",
+                                                                                              "add_node", "remove_node", "__setitem__") \
+                and any(isinstance(x, ast.Name) and x.id == "self" for x in ast.walk(n.func.value)):
+            writes.append(f"L{n.lineno}: {ast.unparse(n.func)}(...)")
+    if writes:
+        raise pyvc.Unsupported("_validate_graph writes to something else than its locals (" + "; ".join(writes[:4]) + "): its use as a pure predicate in the contract of critical_path is not justified")
+    vcs.append(core.VC(f"{PROP}.validate_graph.writes_only_locals", [], z3.BoolVal(True), "vc", [fv_.fq], {}, note="frame condition: outside the branches for negative edge weights (unreachable by C08) no attribute / subscript assignment and no mutating call on self.* (AST)"))
     vcs.append(core.VC(f"{PROP}.critical_path.recomputed_on_every_call", [], z3.BoolVal(not uses), "vc", [f.fq], {},
                        note=f"no cached function wraps dag_longest_path (cached functions using it: {uses}); the what-if workflow recomputes on re-weighted graphs"))
     return vcs
@@ -238,10 +271,16 @@ def _case(seed: int) -> Dict[str, Any]:
                     neww = rng.choice([0, 1, 50, 500])
                     g.edges[u, v]["weight"] = neww
                     changed.append((int(u), int(v), neww))
+            intended = {(int(u), int(v)): g.edges[u, v]["weight"] for u, v in g.edges}  # the weights of the experiment, read BEFORE recomputing
             try:
                 ok = rt.lib(fails, "critical_path(recompute)", {**inp, "reweighted": changed[:10]}, g.critical_path)
             except rt.LibFailure:
                 break
+            altered = [(u, v, intended[(u, v)], g.edges[u, v]["weight"]) for (u, v) in intended if g.edges[u, v]["weight"] != intended[(u, v)]]
+            if altered:
+                fails.append({"what": "whatif.recomputation_leaves_the_weights_as_set", "input": {**inp, "reweighted": changed[:10], "round": round_},
+                              "observed": [{"edge": [u, v], "set": w0, "after_critical_path": w1} for u, v, w0, w1 in altered[:5]],
+                              "expected": "critical_path() reads the weights, it does not change them"})
             if ok:
                 check_path(g, fails, {**inp, "reweighted": changed[:10], "round": round_}, what_prefix="whatif.")
                 n += 1
